@@ -11,8 +11,8 @@ m = dict(
                baseline_off_cmd=BASE, source_commits=[], add_only=True),
     engines=[dict(name="pyvc", path="hv/pyvc", serves_properties=["C01", "C02", "C03", "C04", "C05", "C07", "C08", "C09", "C10", "C11", "C12", "C13", "C14", "C16", "C18", "C19", "C20"],
                   kind_free_text="contract-based deductive verifier for a Python subset: AST of /repo's working tree -> verification conditions -> z3 (E-matching); sidecar contracts in hv/contracts"),
-             dict(name="lean", path="lean", serves_properties=["C01", "C02", "C03", "C04", "C05", "C08", "C11", "C16"],
-                  kind_free_text="Lean 4 / Mathlib proofs of what needs induction: the two lemmas behind the reachability-class axioms (C05, C08, C11), per-operation refinement => every history refines (C01-C04), the degree-sum identity (C08), the point-update lemma of the chain-state count (C16); re-checked by the checks that rely on them"),
+             dict(name="lean", path="lean", serves_properties=["C01", "C02", "C03", "C04", "C05", "C08", "C11", "C16", "C18"],
+                  kind_free_text="Lean 4 / Mathlib proofs of what needs induction: the two lemmas behind the reachability-class axioms (C05, C08, C11), per-operation refinement => every history refines (C01-C04), the degree-sum identity (C08), the point-update lemma of the chain-state count (C16), the monotonicity and sign laws of a finite sum (C18); re-checked by the checks that rely on them"),
              dict(name="rt", path="hv/rt", serves_properties=sorted(PROPS),
                   kind_free_text="bounded stand-in: run-time contract checking of the real functions against ghost models")],
     checks=[], not_applicable=[],
